@@ -8,6 +8,8 @@ package simk
 
 import (
 	"encoding/binary"
+	"fmt"
+	"os"
 	"syscall"
 
 	libaudit "github.com/elastic/go-libaudit/v2"
@@ -40,6 +42,9 @@ type K struct {
 	SendErr       error
 	CloseErr      error
 	ClosedReadErr syscall.Errno
+	// WrapFails: how a failing receive reports its errno — 0 bare (as syscall.Recvfrom does), 1 as *os.SyscallError,
+	// 2 wrapped with fmt.Errorf("%w"): a transport of the caller's own may do either
+	WrapFails int
 	// AllowZeroSeq: number requests as NetlinkClient does — the request after 4294967295 is number 0
 	AllowZeroSeq bool // once Close was called every Receive fails with this (0 = queued datagrams stay readable)
 	// OnSend is called for every request after it has been recorded; it queues
@@ -115,6 +120,12 @@ func (k *K) Receive(nonBlocking bool, p libaudit.NetlinkParser) ([]syscall.Netli
 	it := k.Queue[0]
 	k.Queue = k.Queue[1:]
 	if it.Fail != 0 {
+		switch k.WrapFails {
+		case 1:
+			return nil, os.NewSyscallError("recvfrom", it.Fail)
+		case 2:
+			return nil, fmt.Errorf("receive failed: %w", it.Fail)
+		}
 		return nil, it.Fail
 	}
 	for i := range k.Buf {
